@@ -8,7 +8,7 @@ def p_parts():
     from ._many import p_many
     from ._cats import p_cats
     from ._generic import optional_parts
-    return [p_many, p_cats] + optional_parts(("_readoptions", "p_readoptions"), ("_analyse", "p_analyse"), ("_pages", "p_catlabels"))
+    return [p_many, p_cats] + optional_parts(("_readoptions", "p_readoptions"), ("_analyse", "p_analyse"), ("_pages", "p_catlabels"), ("_pathconv", "p_path_parsing"), ("_header", "p_header"))
 
 
 def run(ctx):
